@@ -412,6 +412,9 @@ impl Connection {
     }
 }
 
+#[cfg(amiquip_verif)]
+pub(crate) use self::amqp_url::verif_decode;
+
 mod amqp_url {
     use super::*;
     use crate::{Auth, Error};
@@ -505,6 +508,20 @@ mod amqp_url {
         }
         let last_err = last_err.unwrap_or(Error::UrlNoSocketAddrs { url });
         Err(last_err)
+    }
+
+    /// Verification hook: the URL interpretation `open` performs, without connecting.
+    #[cfg(amiquip_verif)]
+    pub fn verif_decode(url: &str) -> Result<(bool, String, u16, ConnectionOptions<Auth>)> {
+        let mut url = Url::parse(url).context(UrlParseSnafu)?;
+        let scheme = populate_host_and_port(&mut url)?;
+        let options = decode(&url)?;
+        Ok((
+            scheme == Scheme::Amqps,
+            url.host_str().unwrap_or("").to_string(),
+            url.port().unwrap_or(0),
+            options,
+        ))
     }
 
     #[derive(Debug, PartialEq)]
